@@ -22,7 +22,7 @@ from fractions import Fraction
 from harness import core
 
 MANIFEST_ENTRY = {
-    "text": "Lean theorems over an executable model of the summary aggregation: C14_partial (for every program list without the two reserved names and every world the real code accepts, every simulation count, both retention settings and every enumeration order of every directory scan, the run completes and both summary tables are a permutation of one row per (program, simulation) computed from that pair's own files), guard_exact / C14_rejected (the run raises exactly when some pair wrote a timeseries / emissions / estimate file without data rows), runAll_closed_form, once_each, own_files_only, perm_invariant, retention_invariant, estimate_floor, estJoin_perm_invariant, cost_ratios, cost_once_each, concrete_mit_cell / concrete_cost_cell / cost_ratios_concrete (the two cost columns are the pair's own sum of mitigated emissions and sum of daily cost), batch_sizes_sum, batch_sizes_le_five, batch_sims_eq_range, yearly_shares_complete / window_complete / C14_yearly_partial (the yearly shares of frames of closed records add up to their values, leap years included). C14_counterexample, C14_counterexample_logs, C14_counterexample_zero_rows refute the unrestricted statement (program named kept..., program named Logs, a file without rows); C14_yearly_counterexample refutes share completeness for open-ended records. The model is tied to the real SimulationManager batch loops (debug and multiprocessing), SummaryOutputManager, summary_outputs, summary_output_helpers, summary_output_mapper and batch_simulations by running them over generated program folders with os.scandir permuted independently per call and comparing both summary files and the folder contents after every batch and the cost summary at the end with the compiled model driven by the recorded listings, and with the theorem-level run function on the same world; a direct oracle recomputes every statistic from the pair's own generated data and re-runs every world under a second enumeration order.",
+    "text": "Lean theorems over an executable model of the summary aggregation: C14_partial (for every program list without the two reserved names and every world the real code accepts, every simulation count, both retention settings and every enumeration order of every directory scan, the run completes and both summary tables are a permutation of one row per (program, simulation) computed from that pair's own files), guard_exact / C14_rejected (the run raises exactly when some pair wrote a timeseries / emissions / estimate file without data rows), runAll_closed_form, once_each, own_files_only, perm_invariant, retention_invariant, estimate_floor, estJoin_perm_invariant, cost_ratios, cost_once_each, concrete_mit_cell / concrete_cost_cell / cost_ratios_concrete (the two cost columns are the pair's own sum of mitigated emissions and sum of daily cost), batch_sizes_sum, batch_sizes_le_five, batch_sims_eq_range, yearly_shares_complete / window_complete / C14_yearly_partial (the yearly shares of frames of closed records add up to their values, leap years included), year_length / feb_length (calendar facts of the model's ordinals), genAll_frame / legacy_rows_preserved (rows of earlier batches are carried over unchanged and new rows do not depend on them). C14_counterexample, C14_counterexample_logs, C14_counterexample_zero_rows refute the unrestricted statement (program named kept..., program named Logs, a file without rows); C14_yearly_counterexample refutes share completeness for open-ended records. The model is tied to the real SimulationManager batch loops (debug and multiprocessing), SummaryOutputManager, summary_outputs, summary_output_helpers, summary_output_mapper and batch_simulations by running them over generated program folders with os.scandir permuted independently per call and comparing both summary files and the folder contents after every batch and the cost summary at the end with the compiled model driven by the recorded listings, and with the theorem-level run function on the same world; a direct oracle recomputes every statistic from the pair's own generated data and re-runs every world under a second enumeration order.",
     "design_ref": "DESIGN.md 5.14",
     "note": "trusted: Lean kernel + propext/Classical.choice/Quot.sound; the hand-written model (tied by sampled correspondence, not proof); harness adapter and generators; pandas read_csv/to_csv, merge, groupby and NumPy's percentile as reference semantics (the percentile is an uninterpreted function of the column in the model and is evaluated with NumPy on the column the model names); numbers restricted to a grid on which float arithmetic is exact (CSV float round-trip drift of non-dyadic values is outside the model); row order inside a summary file and the Summary Files switches are not modelled (one world per switch setting is compared per run); a rejected file stops the real run inside a call while the model only flags the call",
     "technique": "Lean 4 closed-form/permutation proofs over a directory-listing model + differential correspondence with the real aggregation code under permuted os.scandir + direct recomputation oracle",
@@ -32,7 +32,8 @@ MODULE = "LdarModel.Props.C14"
 FILE = "LdarModel/Props/C14.lean"
 
 POOL = ["P_A", "P_OGI_2", "A", "A_1", "unkept", "P_Logs", "x_12_y", "P_7_", "alt-FWA", "Prog.B", "P_kept_late", "B2",
-        "NA", "nan", "007"]
+        "NA", "nan", "007", "P", "P_1", "P_1_2", "_lead", "P_timeseries", "emissions_summary", "x.csv", "logs", "KEPT",
+        "Kept_x", "P_none_2", "1_2_3"]
 RESERVED = ["keptA", "kept", "Logs"]
 # names pandas' read_csv takes for missing values / numbers when a summary file is read back
 NA_LIKE = ["NA", "None", "nan", "null", "NULL", "NaN", "<NA>"]
@@ -47,6 +48,42 @@ def D(s):
 
 def iso(d):
     return None if d is None else d.isoformat()
+
+
+ctx_boundary = [0]
+
+
+def boundary_days(years):
+    """Dec 31 / Jan 1, Feb 28 / Feb 29 or Mar 1-1 / Mar 1 of every simulated year and its neighbours"""
+    out = []
+    for y in range(years[0] - 1, years[-1] + 1):
+        out += [dt.date(y, 12, 31), dt.date(y + 1, 1, 1), dt.date(y + 1, 2, 28),
+                dt.date(y + 1, 3, 1) - dt.timedelta(days=1), dt.date(y + 1, 3, 1)]
+    return out
+
+
+def boundary_interval(rng, years, hi):
+    """a closed interval of power-of-two length that starts or ends on a boundary day, straddles New
+    Year by one day, or covers a whole (leap) year"""
+    days = boundary_days(years)
+    for _ in range(20):
+        r = rng.random()
+        if r < 0.2:      # Dec 31 -> Jan 1
+            y = rng.choice(range(years[0] - 1, years[-1]))
+            start, end = dt.date(y, 12, 31), dt.date(y + 1, 1, 1)
+        elif r < 0.4:    # covers every day of a simulated year: 512 or 1024 days from just before it
+            y = rng.choice(years)
+            start = dt.date(y, 1, 1) - dt.timedelta(days=rng.choice([0, 1, 2, 31]))
+            end = start + dt.timedelta(days=rng.choice([512, 1024]) - 1)
+        elif r < 0.7:
+            end = rng.choice(days)
+            start = end - dt.timedelta(days=2 ** rng.randint(0, 9) - 1)
+        else:
+            start = rng.choice(days)
+            end = start + dt.timedelta(days=2 ** rng.randint(0, 9) - 1)
+        if end <= hi:
+            return start, end
+    return dt.date(years[-1], 12, 31), dt.date(years[-1], 12, 31)
 
 
 def gen_intervals(rng, years, count, p_open=0.15, quirk=False):
@@ -70,6 +107,9 @@ def gen_intervals(rng, years, count, p_open=0.15, quirk=False):
         if quirk and n_open and len(years) > 1 and rng.random() < 0.5:
             end = min(end, dt.date(years[-1] - 1, 12, 31))
         start = end - dt.timedelta(days=2 ** rng.randint(0, 9) - 1)
+        if not (n_open and i == 0) and rng.random() < 0.35:
+            start, end = boundary_interval(rng, years, hi)
+            ctx_boundary[0] += 1
         closed.append((start, end, False))
     out = list(closed)
     if n_open:
@@ -134,16 +174,35 @@ def gen_files(rng, years, with_est, quirk=False):
         else:
             f["rep"] = [[0 if zero else rng.randint(0, 160), iso(start), iso(end)]
                         for (start, end, zero) in gen_intervals(rng, years, rng.randint(1, 4), p_open=0.1)]
+            if all(r[2] is not None for r in f["rep"]) and rng.random() < 0.4:
+                # an emission repaired on / after the last survey date: zero span, nothing to remove
+                d = rng.choice([dt.date(years[-1], 12, 31), dt.date(years[-1] + 1, 1, 1), dt.date(years[-1], 12, 30)])
+                f["rep"].insert(rng.randint(0, len(f["rep"])), [0, iso(d), iso(d)])
     return f
 
 
-def gen_world(rng, n=None, reserved=None, quirk=False, base="P_none", est_without_rep=False):
-    y0 = rng.choice([2022, 2023, 2024])
+def variant_world(rng, a):
+    """same program names, baseline and simulation count as `a`; other years, prices, retention,
+    file contents and file formats"""
+    b = gen_world(rng, n=a["n"])
+    y0 = a["years"][0] + rng.choice([-1, 1])
+    years = list(range(y0, y0 + (1 if len(a["years"]) > 1 else 2)))
+    has_est = {p: rng.random() < 0.7 for p in a["programs"]}
+    files = {"%s|%d" % (p, s): gen_files(rng, years, p != a["baseline"] and has_est[p])
+             for p in a["programs"] for s in range(a["n"])}
+    b.update({"programs": list(reversed(a["programs"])), "baseline": a["baseline"], "years": years, "files": files,
+              "extras": {}, "keep_all": not a["keep_all"],
+              "econ": {p: [rng.choice([25, 30]), rng.choice([0.5, 4.0])] for p in a["programs"]}})
+    return b
+
+
+def gen_world(rng, n=None, reserved=None, quirk=False, base="P_none", est_without_rep=False, n_progs=None):
+    y0 = rng.choice([2020, 2022, 2023, 2024])
     years = list(range(y0, y0 + rng.choice([1, 1, 2, 3])))
-    k = rng.choice([1, 2, 2, 3])
+    k = rng.choice([1, 2, 2, 3]) if n_progs is None else n_progs
     progs = rng.sample(POOL, k)
     if reserved:
-        progs[-1] = reserved
+        progs = [p for p in progs[:-1] if p != reserved] + [reserved]
     programs = [base] + [p for p in progs if p != base]
     rng.shuffle(programs)
     if n is None:
@@ -159,8 +218,9 @@ def gen_world(rng, n=None, reserved=None, quirk=False, base="P_none", est_withou
             if rng.random() < 0.3:
                 extras["%s|%d" % (p, s)] = [rng.choice(["timeseries.png", "notes.txt", "timeseries.csv.bak"])]
     return {"programs": programs, "baseline": base, "n": n, "keep_all": rng.random() < 0.5, "years": years,
-            "econ": {p: [rng.choice([25, 28, 30]), rng.choice([0.5, 1.0, 2.0, 4.0])] for p in programs},
-            "files": files, "extras": extras, "logs": rng.random() < 0.8}
+            "econ": {p: [rng.choice([25, 28, 30, 28, 0]), rng.choice([0.5, 1.0, 2.0, 4.0, 0.0])] for p in programs},
+            "files": files, "extras": extras, "logs": rng.random() < 0.8,
+            "format_seed": rng.choice([0, rng.randrange(1, 10 ** 6), rng.randrange(1, 10 ** 6)])}
 
 
 # ----------------------------------------------------------------------------------------------
@@ -193,12 +253,32 @@ def enc_list(xs):
     return "[" + ",".join(xs) + "]"
 
 
+def reset_line(world):
+    from harness.adapters import summary as S
+
+    k = Fraction(S.kg_to_mmbtu())
+    return "reset %s %d %d" % (enc_list(map(str, world["years"])), k.numerator, k.denominator)
+
+
+def safe_model_lines(ctx, world, result, inp):
+    """protocol lines for a world; an unexpected shape of the real run is a broken obligation and the
+    world is still compared through the theorem-level run and judged by the oracle"""
+    if result["error"] and result["error"].startswith("run:"):
+        return [], []
+    try:
+        return model_lines(world, result)
+    except (UnexpectedShape, AssertionError, KeyError, IndexError, ValueError) as e:
+        ctx.broke("step-by-step correspondence with gen_summary_outputs", "%s: %s" % (type(e).__name__, e))
+        ctx.count("unexpected-shape")
+        crashed = bool(result["error"] and result["error"].startswith("gen:"))
+        return runall_lines(world, reset_line(world), crashed)
+
+
 def model_lines(world, result):
     """lines + for every line that is a query the tag under which its reply is compared"""
     from harness.adapters import summary as S
 
-    k = Fraction(S.kg_to_mmbtu())
-    lines = ["reset %s %d %d" % (enc_list(map(str, world["years"])), k.numerator, k.denominator)]
+    lines = [reset_line(world)]
     tags = [("expect", "ok")]
     made = set()
     crashed = False
@@ -239,7 +319,8 @@ def model_lines(world, result):
                 # scans per folder: [TS] if enabled, [EMIS, EST, REP] if enabled, then mark/clear
                 want = (1 if sw["ts"] else 0) + (3 if sw["emis"] else 0) + 1
                 if len(grp) != want:
-                    raise core.InfraError("unexpected scandir pattern for %s: %d calls" % (d, len(grp)))
+                    raise UnexpectedShape("gen_summary_outputs scanned folder %s %d times, %d expected from the "
+                                          "summary switches" % (d, len(grp), want))
                 mark = grp[-1]
                 tsl = grp[0] if sw["ts"] else mark
                 eml = grp[1 if sw["ts"] else 0:-1] if sw["emis"] else [mark, mark, mark]
@@ -261,6 +342,32 @@ def model_lines(world, result):
     # the function the theorems are about (`runAll`: whole batch loop over the world) on the same world
     lines.append(lines[0])
     tags.append(("expect", "ok"))
+    for p in world["programs"]:
+        for sidx in range(world["n"]):
+            f = world["files"]["%s|%d" % (p, sidx)]
+            lines.append("wsim %s %d %s %s %s %s" % (
+                p, sidx, enc_rows("ts", f["ts"]), enc_rows("emis", f["emis"]),
+                "-" if f.get("est") is None else enc_rows("est", f["est"]),
+                "-" if f.get("rep") is None else enc_rows("rep", f["rep"])))
+            tags.append(("expect", "ok"))
+    lines.append("runall %s %d %d %d" % (enc_list(world["programs"]), world["n"], 1 if world["keep_all"] else 0,
+                                          world["n"] % 2))
+    tags.append(("expect", "crash:empty-file" if crashed else "ok"))
+    if not crashed:
+        for q, tag in (("table ts", "run-ts"), ("table emis", "run-emis"), ("dirs", "run-dirs")):
+            lines.append(q)
+            tags.append((tag, None))
+    return lines, tags
+
+
+class UnexpectedShape(Exception):
+    """the real code no longer has the shape the step-by-step driver protocol assumes"""
+
+
+def runall_lines(world, first_line, crashed):
+    """only the theorem-level run of the model on the world (used when the step-by-step protocol
+    cannot be built)"""
+    lines, tags = [first_line], [("expect", "ok")]
     for p in world["programs"]:
         for sidx in range(world["n"]):
             f = world["files"]["%s|%d" % (p, sidx)]
@@ -581,11 +688,25 @@ def oracle(ctx, world, result, inp, second=None):
         ctx.violate(sig, "gen_summary_outputs raised %s: no summary file has any row of this batch or any later one "
                          "(files without data rows: %s)" % (result["error"][4:], zero[:3]), inp)
         return
+    if result["error"] and result["error"].startswith("run:"):
+        ctx.violate("C14:crash:batch-loop", "the batch loop raised outside gen_summary_outputs: %s" % result["error"][4:], inp)
+        return
+    if result.get("mutated_inputs"):
+        ctx.violate("C14:history:inputs-mutated", "the run changed the objects it was configured with (shared with every "
+                    "other manager built from them): %s" % result["mutated_inputs"], inp)
     want = sorted((p, str(s)) for p in world["programs"] for s in range(n))
     tables = {"ts": impl_table(result["final"]["ts"], ts_cols), "emis": impl_table(result["final"]["emis"], em_cols)}
     for name, t in tables.items():
         if not sw[name]:
             continue
+        rows = result["final"][name]
+        if rows:
+            header = list(rows[0].keys())
+            expect_header = ["Program Name", "Simulation"] + list(ts_cols if name == "ts" else em_cols)
+            if header != expect_header:
+                odd = [c for c in header if c not in expect_header] + [c for c in expect_header if c not in header]
+                ctx.violate("C14:columns:%s" % name, "%s summary: columns are not the key and the configured statistics of "
+                            "these years in mapper order (%s)" % (name, odd[:4] or "order differs"), inp)
         keys = sorted(k for k, _ in t)
         if keys != want:
             once_each_violation(ctx, name, keys, want, inp)
@@ -645,6 +766,19 @@ def oracle(ctx, world, result, inp, second=None):
         else:
             sig = "C14:cost:crash"
         ctx.violate(sig, "cost summary could not be produced: %s" % result["error"], inp)
+    # retention: what is left in the program folders, from the configuration alone
+    if result["error"] is None:
+        from harness.adapters import summary as S2
+
+        for p in world["programs"]:
+            if reserved_class(p):
+                continue
+            kept_sims = range(n) if world["keep_all"] else range(min(5, n))
+            exp = sorted("kept" + name for s_ in kept_sims for (_, name) in S2.planned_files(world, p, s_))
+            got = result["final"]["dirs"].get(p) or []
+            if got != exp:
+                ctx.violate("C14:retention:folder-contents", "folder of %s: %d files left, the retention setting asks for %d "
+                            "(all marked kept; first batch only unless all outputs are kept)" % (p, len(got), len(exp)), inp)
     # enumeration-order independence: a second run with another order of every listing
     if second is not None:
         for name, cols in (("ts", ts_cols), ("emis", em_cols), ("cost", cost_cols())):
@@ -729,13 +863,23 @@ def run(ctx):
                 "correction files on an exact grid, stray non-CSV files; every n in 1..12 (thorough: 1..17) x both "
                 "retention settings at least once + random; each world is run twice under independently permuted "
                 "os.scandir; non-trivial = at least one row summarised; distinct by (n, #programs, retention, #batches, "
-                "estimates present, #years, Logs folder present); evaluations = worlds + unit-level protocol lines (file "
+                "estimates present, #years, Logs folder present, world kind); interval ends/starts are put on Dec 31 / Jan 1 / Feb 28 / "
+                "Feb 29 / Mar 1, New-Year straddles and whole-(leap-)year covers on purpose; per-simulation files are written "
+                "with float formatting, extra columns and shuffled column order; worlds with equal program names but other "
+                "years / prices / contents run back to back in both orders and must repeat exactly; evaluations = worlds + unit-level protocol lines (file "
                 "names against the real regexes, batch_simulations 0..59 + random, calendar days 1999-12-25..2031-01-09)")
     core.lean_stage(ctx, MODULE, FILE, drivers=["drv_summary"])
     drv = core.LeanDriver("drv_summary")
 
     # unit-level: regexes, batching, ordinals
-    ul, ue = unit_lines(ctx)
+    from harness.adapters import summary as S
+
+    state0 = S.class_state()
+    try:
+        ul, ue = unit_lines(ctx)
+    except Exception as e:  # a constant / regex the unit level reads is gone: broken obligation, go on
+        ctx.broke("unit-level tie (regexes, kept marker, batch_simulations)", "%s: %s" % (type(e).__name__, e))
+        ul, ue = [], []
     ur = drv.run(ul)
     for line, exp, got in zip(ul, ue, ur):
         ctx.evaluations += 1
@@ -749,7 +893,7 @@ def run(ctx):
     for n in ns:
         for keep in ((True, False) if (not ctx.quick or n in (1, 5, 6, 10, 11, 12)) else (ctx.rng.random() < 0.5,)):
             specs.append({"n": n, "keep": keep})
-    for _ in range(ctx.pick(8, 280)):
+    for _ in range(ctx.pick(4, 280)):
         specs.append({})
     worlds = []
     for sp in specs:
@@ -793,10 +937,27 @@ def run(ctx):
         w = gen_world(ctx.rng, n=ctx.rng.choice([2, 6]), est_without_rep=True)
         worlds.append((w, ctx.rng.randrange(10 ** 6), "estimate-without-correction"))
 
+    # names / shapes: a run with the baseline program only; more programs than 4 x processes in the pool loop
+    w = gen_world(ctx.rng, n=ctx.rng.choice([1, 6]), n_progs=0)
+    worlds.append((w, ctx.rng.randrange(10 ** 6), "baseline-only"))
+    if not ctx.quick:
+        w = gen_world(ctx.rng, n=6, n_progs=9)
+        w["multiprocessing"] = True
+        worlds.append((w, ctx.rng.randrange(10 ** 6), "multiprocessing-loop"))
+    # same-process history: worlds with the same program names but other years / prices / retention /
+    # contents back to back, in both orders; every run is judged on its own and must repeat exactly
+    history = []
+    for _ in range(ctx.pick(1, 4)):
+        a = gen_world(ctx.rng, n=ctx.rng.choice([2, 6, 7]))
+        b = variant_world(ctx.rng, a)
+        sa, sb = ctx.rng.randrange(10 ** 6), ctx.rng.randrange(10 ** 6)
+        history.append((a, sa, b, sb))
+        worlds += [(a, sa, "history-a"), (b, sb, "history-b"), (a, sa, "history-a-again"), (b, sb, "history-b-again")]
+
     all_lines, slices, runs = [], [], []
     for (w, seed, kind) in worlds:
         r1, r2 = run_pair(w, seed)
-        lines, tags = model_lines(w, r1)
+        lines, tags = safe_model_lines(ctx, w, r1, {"world": w, "perm_seed": seed, "kind": kind})
         slices.append((len(all_lines), len(lines), tags))
         all_lines += lines
         runs.append((w, seed, kind, r1, r2))
@@ -815,6 +976,28 @@ def run(ctx):
         ctx.count("batches=%d" % len(r1["batches"]))
         ctx.count("gen_calls", sum(1 for ev in r1["events"] if ev[0] == "gen"))
         ctx.count("hypothesis:GoodProgs:" + ("holds" if not any(reserved_class(p) for p in w["programs"]) else "fails"))
+    # history: the repeated run of a world equals its first run, whatever ran in between
+    by_kind = {}
+    for (w, seed, kind, r1, r2) in runs:
+        if kind.startswith("history"):
+            by_kind.setdefault((id(w), kind.replace("-again", "")), []).append((w, seed, r1))
+    for (_, kind), rs in by_kind.items():
+        if len(rs) == 2:
+            (w, seed, first), (_, _, again) = rs
+            ts_cols, em_cols = table_cols(w)
+            for name, cols in (("ts", ts_cols), ("emis", em_cols), ("cost", cost_cols())):
+                if impl_table(first["final"][name], cols) != impl_table(again["final"][name], cols) \
+                        or first["final"]["dirs"] != again["final"]["dirs"]:
+                    ctx.violate("C14:history:%s" % name, "%s summary (or the folders) of the same world differ between "
+                                "two runs in one process with another world of the same program names in between" % name,
+                                {"world": w, "perm_seed": seed, "kind": kind})
+            ctx.count("history_pairs")
+    state1 = S.class_state()
+    if state1 != state0:
+        diff = [k for k in state0 if state0[k] != state1.get(k)]
+        ctx.violate("C14:history:class-level-state", "class-/module-level containers of the summary code changed during "
+                    "the process: %s" % diff, {"before": state0, "after": state1})
+    ctx.count("boundary_intervals", ctx_boundary[0])
     for (w, seed, kind, r1, r2) in runs[:3]:
         ctx.sample({"programs": w["programs"], "n": w["n"], "keep_all": w["keep_all"], "years": w["years"],
                     "batches": r1["batches"], "rows": len(r1["final"]["emis"] or [])})
